@@ -677,6 +677,13 @@ impl Plan {
                     let _ =
                         std::mem::replace(&mut self.colr_varidx_delta_map, deltaset_idx_delta_map);
                 }
+            } else {
+                // no ItemVariationStore (e.g. a subset whose store became empty): the indices
+                // refer to nothing and every delta is zero, so they all become "no variation"
+                for idx in variation_indices.iter() {
+                    self.colr_varidx_delta_map
+                        .insert(idx, (NO_VARIATION_INDEX, 0));
+                }
             }
         } else {
             self.glyphset_colred.union(&self.glyphset_gsub);
